@@ -21,6 +21,10 @@ Sub-spaces
               + the bare number): every ordered pair of different, non-reciprocal dimension must raise from both
               value() and to() and leave value and units of the quantity as they were
 
+  power       every linear table symbol (units, constants and system-of-quantities units #...) raised to the powers
+              1:2, -3:2 and 2: S^e <-> R^e (R another spelling of the same dimension), through the intermediate R^e,
+              and refusal of S^e <-> R^e' for the neighbouring exponents e' (dimension = table dimension x exponent)
+
 Not demanded (left out): logarithmic and offset units (C05); numeric factors inside a target expression; x = 0 under
 a reciprocal conversion; a bare number to angle units other than the table symbol 'rad' (deg, mrad, #SPAN: the
 statement names radians only); a target without any unit; results whose exact value or intermediate leaves
@@ -475,6 +479,31 @@ def _reciprocal_pairs():
     return out
 
 
+POWERS = [F(1, 2), F(-3, 2), F(2)]
+POWER_NEIGHBOURS = {F(1, 2): [F(1)], F(-3, 2): [F(-1), F(-2)], F(2): [F(1), F(3)]}     # never -e (reciprocal)
+
+
+def _pow(name, e):
+    return U(name + units_ref.exp_text(e), [(name, e)])
+
+
+def _power_cases():
+    """[(S, R, e)]: every linear table symbol S (no prefix) with another spelling R of its dimension (S itself if it
+    is alone) and every exponent of POWERS"""
+    gd = dict(_GROUPS)
+    out = []
+    for name in _REF.linear_spellings():
+        sp = _REF.spellings[name]
+        if sp.prefix is not None:
+            continue
+        others = [n for n in gd[sp.dims] if n != name]
+        plain = [n for n in others if not _REF.spellings[n].system]
+        partner = (plain or others or [name])[0]
+        for e in POWERS:
+            out.append((name, partner, e))
+    return out
+
+
 _RAD_ONLY = [  # compound representatives that differ from a table group only in the rad exponent
     ("rad/s", [("rad", 1), ("s", -1)]), ("rad*m", [("rad", 1), ("m", 1)]), ("rad2", [("rad", 2)]),
     ("cd/m2", [("cd", 1), ("m", -2)]), ("cd*rad", [("cd", 1), ("rad", 1)]), ("m/rad", [("m", 1), ("rad", -1)]),
@@ -547,7 +576,10 @@ def plan(tier, seed):
     for k in range(16):
         shards.append(("refuse", k, 16))
     shards.append(("number-to-rad",))
-    order = {"refuse": 0, "number-to-rad": 0, "gbu": 0, "reciprocal": 1, "pair": 2, "compound": 3, "triple": 4}
+    for k in range(8):
+        shards.append(("power", k, 8))
+    order = {"refuse": 0, "number-to-rad": 0, "gbu": 0, "power": 0, "reciprocal": 1, "pair": 2, "compound": 3,
+             "triple": 4}
     shards.sort(key=lambda s: order[s[0]])
     return shards
 
@@ -620,6 +652,34 @@ def run_shard(desc):
                         tags=["reciprocal-dimension"])
             if n == 5 and desc[1] == 0:
                 sh.sample(dict(sub="reciprocal", u=u["text"], v=v["text"], xs=[x for x in XS if x != 0]), limit=1)
+    elif kind == "power":
+        for n, (S, R, e) in enumerate(_power_cases()[desc[1]::desc[2]]):
+            tags = ["unit-power", "fractional-exponent" if e.denominator != 1 else "integer-exponent"]
+            u, v = _pow(S, e), _pow(R, e)
+            _conv_cases(sh, "power", u, v, XS, ARRAY, tags=tags, nontrivial=(S != R))
+            if S != R:
+                _conv_cases(sh, "power", v, u, XS, ARRAY, tags=tags)
+                for x in TRIPLE_XS:
+                    r, k = check_triple(dict(sub="triple", u=u, w=v, vs=[u, v], x=x, tags=tags), {})
+                    sh.evaluations += k
+                    sh.count("triple", 2)
+                    if r is not None:
+                        sh.fail(r)
+            if any(c != 0 for c in _REF.spellings[S].dims):
+                for e2 in POWER_NEIGHBOURS[e]:
+                    for a, b in ((u, _pow(R, e2)), (_pow(R, e2), u)):
+                        bad = None
+                        for x in (2.5, [1.0, -2.5]):
+                            r = check_refuse(dict(sub="refuse", u=a, v=b, x=x, tags=tags))
+                            sh.evaluations += 1
+                            if r is not None and bad is None:
+                                bad = r
+                        sh.nontrivial += 1
+                        sh.count("refuse:unit-power")
+                        if bad is not None:
+                            sh.fail(bad)
+            if n == 2 and desc[1] == 0:
+                sh.sample(dict(sub="power", u=u["text"], v=v["text"], xs=XS), limit=1)
     elif kind == "number-to-rad":
         for x in XS + [ARRAY]:
             r = check_number_to_rad(dict(sub="number-to-rad", x=x))
@@ -678,7 +738,7 @@ def replay(rec):
     isolation.tables_restore()
     c = rec["case"]
     sub = c["sub"]
-    if sub in ("pair", "compound", "reciprocal"):
+    if sub in ("pair", "compound", "reciprocal", "power"):
         r = check_convert(c)
     elif sub == "number-to-rad":
         r = check_number_to_rad(c)
@@ -696,7 +756,7 @@ def finish(total, tier, seed):
     h = total.hist
     need = {"pair:converted": 10000, "pair:identity": 500, "triple": 10000, "compound:converted": 5000,
             "reciprocal:converted": 1000, "refuse": 1000, "refuse:differs-only-in-rad": 4, "refuse:bare-number": 20,
-            "number-to-rad": 8}
+            "number-to-rad": 8, "power:converted": 500, "refuse:unit-power": 500}
     for k, n in need.items():
         if h.get(k, 0) < n:
             raise HarnessError("vacuous sub-space %s: %r" % (k, h))
@@ -709,7 +769,8 @@ def finish(total, tier, seed):
         compound_windows_total=NWIN, compound_windows_explored=sorted(total.sets.get("compound_windows", [])),
         compound_expressions=sum(len(o) for _, o in _compound_groups()), compound_groups=len(_compound_groups()),
         reciprocal_pairs=len(_reciprocal_pairs()), refusal_representatives=len(_refusal_reps()),
-        refusal_pairs=len(_refusal_pairs()),
+        refusal_pairs=len(_refusal_pairs()), power_cases=len(_power_cases()),
+        powers=[units_ref.exp_text(e) for e in POWERS],
         magnitudes=XS, array=ARRAY, triple_magnitudes=TRIPLE_XS, relative_tolerance=RTOL, caps_hit=[],
     )
 
@@ -719,7 +780,9 @@ MANIFEST = dict(
          "(table units and system units x admissible prefixes) sharing a dimension x 7 magnitudes (0, +-1, 2.5, "
          "-3.7e-7, 1e+-200) + one array, out-of-place, in-place and back; all 978 254 triples u->w->v x 2 magnitudes "
          "(quick: one quarter of the intermediates, chosen by the seed); 110 000 pairs of compound expressions (quick: "
-         "one quarter of the sources) and the Gaussian fractional-exponent units against their definitions; all pairs of exactly reciprocal dimension; bare "
+         "one quarter of the sources) and the Gaussian fractional-exponent units against their definitions; every linear table symbol incl. "
+         "system-of-quantities units to the powers 1:2, -3:2, 2 (convert, via intermediate, refuse neighbouring "
+         "exponents); all pairs of exactly reciprocal dimension; bare "
          "number -> rad; 15 467 ordered pairs of 126 representatives of different dimension (incl. pairs that differ only "
          "in the rad exponent) must be refused by value() and to() and leave value and units untouched. Oracle: "
          "x*f(u)/f(v) in exact rational arithmetic over the published tables, rel 1e-12.",
